@@ -82,4 +82,33 @@ def perm_del_after_bits(finding, fl):
     return om == bad
 
 
-FUNCS = {'perm_del_after_bits': perm_del_after_bits}
+def direct_print_in_framed(finding, fl):
+    """D13: the tree contains a directly-printing action (printfid / defaultprint) and an action
+    that forces framed output; only the routing kinds (wrong records / bytes outside a frame)."""
+    t = fl.get('tree')
+    if not isinstance(t, dict):
+        return False
+    leaves = []
+
+    def walk(x):
+        if isinstance(x, dict):
+            if x.get('k') in ('and', 'or', 'list'):
+                walk(x['l']); walk(x['r'])
+            elif x.get('k') in ('not', 'prec'):
+                walk(x['e'])
+            else:
+                leaves.append(x)
+    walk(t)
+    direct = any(l.get('k') in ('printfid', 'defaultprint') for l in leaves)
+
+    def framed(l):
+        if l.get('k') in ('print0', 'fprint', 'fprint0', 'fprintf', 'fls'):
+            return True
+        if l.get('k') == 'printf':
+            f = l.get('f', [])
+            return bool(f) and not (f[-1].get('el') == 'esc' and f[-1].get('x') == 'n')
+        return False
+    return direct and any(framed(l) for l in leaves)
+
+
+FUNCS = {'perm_del_after_bits': perm_del_after_bits, 'direct_print_in_framed': direct_print_in_framed}
